@@ -1,7 +1,10 @@
 use crate::ttl::{ExpirationMap, Time};
 use crate::utils::{change_lifetime_const, SharedValue, ValueRef, ValueRefMut};
 use crate::{CacheError, DefaultUpdateValidator, Item as CrateItem, UpdateValidator};
+#[cfg(not(transparencies_stretto_verif))]
 use parking_lot::RwLock;
+#[cfg(transparencies_stretto_verif)]
+use stretto_sim_rt::sync::RwLock;
 use std::collections::hash_map::RandomState;
 use std::collections::HashMap;
 use std::fmt::{Debug, Formatter};
@@ -330,6 +333,38 @@ unsafe impl<V: Send + Sync + 'static, U: UpdateValidator<Value = V>, SS: BuildHa
 unsafe impl<V: Send + Sync + 'static, U: UpdateValidator<Value = V>, SS: BuildHasher, ES: BuildHasher>
     Sync for ShardedMap<V, U, SS, ES>
 {
+}
+
+#[cfg(transparencies_stretto_verif)]
+impl<
+        V: Send + Sync + Clone + 'static,
+        U: UpdateValidator<Value = V>,
+        SS: BuildHasher + Clone + 'static,
+        ES: BuildHasher + Clone + 'static,
+    > ShardedMap<V, U, SS, ES>
+{
+    pub(crate) fn verif_entries(&self) -> Option<Vec<crate::verif::Entry<V>>> {
+        let mut out = Vec::new();
+        for shard in self.shards.iter() {
+            let g = shard.0.try_read()?;
+            for (k, item) in g.iter() {
+                let (created_ns, ttl_ns) = item.expiration.verif_parts();
+                out.push(crate::verif::Entry {
+                    index: *k,
+                    conflict: item.conflict,
+                    value: item.value.get().clone(),
+                    created_ns,
+                    ttl_ns,
+                });
+            }
+        }
+        out.sort_by_key(|e| e.index);
+        Some(out)
+    }
+
+    pub(crate) fn verif_buckets(&self) -> Option<Vec<(i64, Vec<(u64, u64)>)>> {
+        self.em.verif_buckets()
+    }
 }
 
 pub(crate) enum UpdateResult<V: Send + Sync + 'static> {
